@@ -22,7 +22,6 @@ import (
 	"sort"
 	"strconv"
 	"strings"
-	"time"
 
 	"github.com/smart-core-os/sc-api/go/types"
 	"github.com/smart-core-os/sc-golang/internal/testproto"
@@ -66,9 +65,11 @@ func (c pcase) runParked() parkedOut {
 			out.err = "panic:" + msg
 		}
 	}()
+	w := bounded(4 * lossyWait)
 	select {
 	case <-done:
-	case <-time.After(4 * lossyWait):
+	case <-w.C:
+		w.ranOut()
 		return parkedOut{err: "timeout"}
 	}
 	return out
@@ -139,13 +140,15 @@ func (c pcase) runParkedInner(out *parkedOut) {
 	defer cancel()
 	ch := col.Pull(ctx, c.lossyReadOptions()...)
 	recv := func() *resource.CollectionChange {
+		w := bounded(lossyWait)
 		select {
 		case x, ok := <-ch:
 			if !ok {
 				return nil
 			}
 			return x
-		case <-time.After(lossyWait):
+		case <-w.C:
+			w.ranOut()
 			return nil
 		}
 	}
@@ -515,11 +518,12 @@ func runParked(f lib.Flags, res *lib.Result, drv *lib.Driver, ms *monitors) {
 		nodup bool
 	}{{nil, false}, {&exact, true}, {&mspec{E: []espec{{V: []vspec{{Atoms: []atom{{Kind: "fa", A: 0, B: 1}}}}}}}, false}}
 	record := func(tie *lib.Tie, c pcase, nontrivial bool) bool {
+		mark := patience.mark()
 		out := c.runParked()
 		c.monitorParked(ms, out)
 		if out.err != "" {
 			tie.Record(fmt.Sprint(c.json()), true, c.json(), "(not asked)", "error:"+out.err)
-			return true
+			return !patience.giveUp(mark) // a broken tree must not stall the run (patience.go)
 		}
 		line, model, code, err := c.parkedTie(out, drv)
 		if err != nil {
